@@ -189,6 +189,8 @@ def run_halflock(chk, tier, want_liveness=False):
             behs, out_txt, wall = spec2impl.behaviours(c, n, depth, "%s_s2i_%s" % (pid, name),
                                                        seed=chk.seed)
             if behs is None:
+                if chk.violations:
+                    break       # the exhaustive model checks above have reported it already
                 raise ToolError("spec->impl %s: TLC simulation stopped on a violation that the "
                                 "exhaustive model checks above did not report" % name)
             scheds = sorted(set(x for x in (spec2impl.schedule_of(b) for b in behs) if x))
